@@ -324,8 +324,8 @@ def main():
     ev = {
         'property_id': pid, 'tier': a.tier, 'seed': seed, 'level': level,
         'coverage': {
-            'obligations': len(expected) - len([o for o in expected if P.OBLIGATIONS[o].get('kind', 'proved').startswith('bounded')]),
-            'discharged': len(discharged),
+            'obligations': len([o for o in expected if o not in bounded_ok]),
+            'discharged': len([o for o in expected if o in discharged]),
             'bounded_obligations': {o: v.get('bound') for o, v in bounded_ok.items()},
             'failed': sorted(failed),
             'undecided': undec[:20],
